@@ -32,7 +32,7 @@ MANIFEST_ENTRY = {
             "other than a chunk header or the end node carries the used mark), from which: after any history dealloc of ANY non-nil pointer that is not a "
             "live block panics - double frees, pointers of an earlier generation, pointers into payloads - except the one address just past the end node "
             "(C11_heap_mem_invalid_free_reported_partial; the exception is real, _refuted, OPEN FINDING: dealloc(buffer+SIZE) is accepted when the end node "
-            "is 16-aligned and corrupts the heap). The derived operations of Allocator_implement_interface (alloc0/realloc0/x*/span*/new/delete) are modelled "
+            "is 16-aligned and corrupts the heap). Every write of the memory-level heap goes to a header word of an old or new chunk, so no operation changes a word of a block that stays live (C11_heap_mem_payload_frame). The derived operations of Allocator_implement_interface (alloc0/realloc0/x*/span*/new/delete) are modelled "
             "generically over the primitives with theorems that they are the stated primitive calls; span counts and AlignedAllocator requests never wrap "
             "(C11_arena_span_in, C11_aligned_fits: full strength after the repairs 942989e, 532034f). TESTING ONLY (shadow-map oracle on the real allocators): "
             "heap/stack/pool payload contents at the memory level, AlignedAllocator over whole histories, the derived operations on the real code, release builds. "
@@ -54,6 +54,7 @@ THEOREM_CLASSES = {
     "C11_heap_safe": "main", "C11_heap_no_adjacent_free": "main", "C11_heap_release_all_restores": "main",
     "C11_heap_refinement": "main", "C11_heap_mem_safe": "corollary",
     "C11_heap_mem_invalid_free_reported_partial": "main", "C11_heap_mem_invalid_free_reported_refuted": "refutation",
+    "C11_heap_mem_payload_frame": "main",
     "C11_heap_realloc_preserves": "main", "C11_heap_alloc0_zeroes": "definitional", "C11_heap_realloc0_zeroes": "definitional",
     "C11_iface_alloc0": "definitional", "C11_iface_xalloc": "definitional", "C11_iface_xrealloc": "definitional",
     "C11_iface_realloc0": "definitional", "C11_iface_spanalloc": "main", "C11_iface_spanrealloc": "definitional",
@@ -69,7 +70,7 @@ TRUSTED_BASE = [
     "extraction: Require Extraction + ExtrOcamlBasic only; Z/positive/nat stay Coq inductives; no Extract Constant of our own",
     "ocaml/zutil.ml + coq/C11/driver.ml (line protocol, handle table, closures handing an instance's primitives to the extracted interface wrappers, printing of the model state), harness/C11/driver.nelua (calls the allocators, keeps the handle table, prints offsets and internal state read through the allocator records), OCaml 4.13.1, gcc, the Nelua compiler itself (the driver is compiled by it, default checked build)",
     "modelled rather than verified: the allocators are mirrored by hand in coq/C11/Model.v (arena/stack/pool), Heap.v (memory-level heap), HeapA.v (abstract heap), Iface.v (derived operations), Aligned.v; the tie is the line-by-line correspondence of offsets and internal state on every check. Heap.v -> HeapA.v is NOT trusted: it is the proved refinement of coq/C11/Refine*.v",
-    "payload contents are byte functions separate from the allocator's own memory (arena a_bytes, heap hb_bytes): that header writes never land in a live payload is a consequence of the placement theorems, not a separate memory-level theorem",
+    "payload contents are byte functions separate from the allocator's own memory (arena a_bytes, heap hb_bytes); for the heap, that header writes never land in a live payload is the separate memory-level theorem C11_heap_mem_payload_frame (all writes of Heap.v go to header words of old/new chunks)",
     "GeneralAllocator (libc malloc/calloc/realloc/free) and GCAllocator (property C10) are outside the Coq models",
 ]
 ASSUMPTIONS = [
@@ -1108,12 +1109,12 @@ def correspond(ctx):
 
 UNPROVED = [
     "heap_mem_invalid_free_reported_full (SpecHeap.v: dealloc of EVERY non-live non-nil pointer panics) is FALSE of the code: the pointer just past the end node is accepted (C11_heap_mem_invalid_free_reported_refuted, open finding, repair proposed in harness/C11/proposed_repairs/04-heap-end-sentinel-free.diff); proved for every other pointer (_partial). The same holds for realloc of such a pointer (same get_ptr_node test; not stated separately)",
-    "memory level: 'the allocator never writes inside a live payload' is not a separate theorem (the refinement constrains header words and used marks; payload bytes live in a separate byte function)",
+    "heap payload CONTENTS at the memory level: C11_heap_mem_payload_frame proves that the allocator's own writes never touch a live payload, but realloc's memory.copy of a moved block is modelled on the separate byte function (hb_bytes) only, not in the word memory of Heap.v; stack/pool have no such memory-level frame theorem (their headers/links are in-band and covered by the safe theorems' client-write frame condition)",
     "pool: pool_good has no alignment clause beyond 'is a chunk start' (the alignment of T inside the chunk union is the compiler's layout, property C03)",
     "AlignedAllocator: alignment arithmetic, single-step alloc spec and 'fits in a fresh good block of the arena in any reachable arena state' are proved; a history-level theorem over aligned alloc/dealloc/realloc (headers of live aligned blocks are never overwritten) is not; its default realloc's memory.move is not a contents theorem",
     "stack/pool: realloc never moves a block (it returns p or nil), contents preservation is therefore not stated separately",
     "GeneralAllocator (libc) and GCAllocator (C10) are outside the Coq models; release builds (checks compiled out) are not exercised",
-    "the constants are literals in the proofs (NODE = 32, ALLOC_ALIGN = 16, BIN_COUNT = 24, get_bin_index_range with 24/3/28): Gen.v regenerates them and the build fails if they change, but a retune needs the proofs revisited",
+    "NODE = 32 and ALLOC_ALIGN = 16 are literals in the proofs (NODE_eq / ALIGN_eq, 'mod 16' arithmetic): Gen.v regenerates them and the build fails if they change, but a change needs the proofs revisited. The bin tuning constants are parametric: get_bin_index_p_range holds for any BIN_MIN_LOG >= 0, BIN_COUNT > 0 with BIN_MIN_LOG + BIN_COUNT <= 32 and BIN_CLZ_BASE = 31 - BIN_MIN_LOG (side conditions re-checked by computation on the regenerated constants)",
 ]
 
 
